@@ -61,6 +61,8 @@ def gen(rng, flavour):
                 fail = rng.randint(0, mlen)
             d = rng.choice([0, T / 4, T]) if k in ('amap', 'mapiter') and flavour != 'c08' else 0
             acts.append({'t': t, 'k': k, 'ids': ids(mlen), 'd': d, 'fail': fail})
+            if k == 'maplist' and flavour != 'c08':
+                acts[-1]['container'] = ('list', 'list', 'tuple', 'drain')[(mlen + i) % 4]
         else:
             acts.append({'t': t, 'k': k, 'ids': [], 'd': 0, 'fail': None})
     if flavour == 'c07' and rng.random() < 0.02:
@@ -103,14 +105,29 @@ def gen(rng, flavour):
         migrate = {'phase1': rng.random() < 0.6, 'phase2': ph2}
     if migrate is not None and rng.random() < 0.4:
         cfg['debug'] = True
+    if flavour in ('c03', 'c07') and shutdown is None and migrate is None and (cfg['fails'] + [9])[0] != 0:
+        if (n + len(fails)) % 5 == 0:
+            cfg['spawn'] = ((0, T / 4, 2 * T)[n % 3], bool(n % 2))
     rewrap = None
     if flavour == 'c03' and shutdown is None and migrate is None and not foreign and rng.random() < 0.2:
         rewrap = []
+        cfg.pop('spawn', None)
         t2 = 0.0
         for j in range(rng.randint(1, 3)):
             t2 += rng.choice([0, 8 * U, T + m])
             rewrap.append({'t': t2, 'k': rng.choice(['call', 'call', 'maplist', 'await']), 'ids': [f'R{j}'], 'd': 0, 'fail': None})
     return {'cfg': cfg, 'acts': acts, 'foreign': foreign, 'shutdown': shutdown, 'migrate': migrate, 'rewrap': rewrap}
+
+
+class Drain:
+    """Iterable, not an Iterator: every __iter__ call hands out what is still in the inbox."""
+    def __init__(self, items):
+        import collections as _c
+        self.inbox = _c.deque(items)
+
+    def __iter__(self):
+        while self.inbox:
+            yield self.inbox.popleft()
 
 
 class BufferHarness:
@@ -156,6 +173,17 @@ class BufferHarness:
                 ninv[0] += 1
                 n = ninv[0]
                 emit('fstart', n, frozenset(unreal(a) for a in args))
+                if cfg.get('spawn') and n == 1 and not box.get('shutting_down'):
+                    # the wrapped function starts follow-up work of its own (a task that outlives this invocation) which later
+                    # submits to the same buffer and waits for it, like any other user of the buffer
+                    async def follow_up(delay=cfg['spawn'][0], cancel=cfg['spawn'][1]):
+                        await aio.sleep(delay)
+                        emit('sub', 'S0', 'call', 'L', ('sp0',))
+                        box['buf']('sp0')
+                        emit('wcall', 'S0', 'wait' if cancel else 'waitnc', 'L')
+                        await box['buf'].wait(cancel=cancel)
+                        emit('wret', 'S0', 'L')
+                    box.setdefault('spawned', []).append(aio.ensure_future(follow_up()))
                 try:
                     if box.get('shutting_down'):
                         # an invocation begun once the loop is being shut down waits for something that will not
@@ -202,7 +230,10 @@ class BufferHarness:
                     buf.await_(aw())
                 elif k == 'maplist':
                     emit('sub', sid, k, who, tuple(a['ids']))
-                    buf.map(list(ids_))
+                    cont = a.get('container', 'list')
+                    # a collection: a list, a tuple, or an iterable that is not an iterator yet can be walked only once
+                    # (its __iter__ drains a shared inbox)
+                    buf.map(Drain(ids_) if cont == 'drain' else tuple(ids_) if cont == 'tuple' else list(ids_))
                 elif k == 'mapiter':
                     def g():
                         try:
@@ -268,6 +299,8 @@ class BufferHarness:
                 async def main_coro():
                     box['ready'] = True          # foreign threads start only once this loop is running
                     await aio.gather(*(act(i, a) for i, a in enumerate(prog['acts'])))
+                    for tk in box.get('spawned', []):
+                        await tk
                     while box['fdone'] < nforeign:
                         await aio.sleep(T)
                     if flavour == 'c08':
@@ -275,6 +308,13 @@ class BufferHarness:
                     emit('wcall', 'final', 'wait', 'L')
                     await buf.wait()
                     emit('wret', 'final', 'L')
+                    while any(not tk.done() for tk in box.get('spawned', [])):
+                        # (the function's own follow-up work may only have been started by that last flush)
+                        for tk in box['spawned']:
+                            await tk
+                        emit('wcall', 'final+', 'wait', 'L')
+                        await buf.wait()
+                        emit('wret', 'final+', 'L')
 
                 if prog['shutdown'] is None:
                     try:
@@ -721,6 +761,10 @@ class BufferCheck(Check):
         n = self.SIZES[tier]
         nreal = self.REAL[tier] if self.pid in ('C03', 'C07') else 0
         every = max(1, n // max(1, nreal)) if nreal else 0
+        if self.pid in ('C03', 'C08'):
+            # a wrapper nobody keeps a reference to after the last submission (used before or not, collector run or not)
+            for k in range(16):
+                yield {'oneshot': k}
         n12 = (6000 if tier == 'quick' else 120000) if self.pid == 'C08' else 0
         k12 = 0
         if self.pid == 'C07':
@@ -760,7 +804,70 @@ class BufferCheck(Check):
         base['acts'] = acts
         return base
 
+    def run_oneshot(self, case):
+        import gc
+        A = self.h.A
+        k = case['oneshot']
+        used, collect, deco, many = bool(k & 1), bool(k & 2), bool(k & 4), bool(k & 8)
+        T = 16 * U
+
+        def main(s):
+            def body():
+                loop = aio.new_event_loop()
+                aio.set_event_loop(loop)
+
+                async def func(args):
+                    s.log.append(('fstart', sorted(args), s.now))
+
+                async def m():
+                    b = A.buffer_until_timeout(timeout=T)(func) if deco else A.buffer_until_timeout(func, timeout=T)
+                    if used:
+                        b(0)
+                        await aio.sleep(3 * T)
+                    if many:
+                        b.map([1, 2, 3])
+                    else:
+                        b(1)
+                    s.log.append(('last_submission', s.now))
+                    del b                       # the caller keeps nothing: what was submitted must still be delivered
+                    if collect:
+                        gc.collect()
+                        await aio.sleep(0)
+                        gc.collect()
+                    await aio.sleep(3 * T)
+                    s.log.append(('end', s.now))
+                loop.run_until_complete(m())
+                for t in aio.all_tasks(loop):
+                    t.cancel()
+                loop.close()
+            s.spawn(body, 'L')
+        r = simrt.execute(main, simrt.Strategy('none'), lines=False, watchdog=30.0)
+        res = CaseResult()
+        st = res.stats
+        st['executions'] += 1
+        st['wrapper_dropped_after_last_submission'] += 1
+        if r.verdict == 'watchdog' or not r.clean:
+            res.dirty = True
+        if r.verdict == 'watchdog' or r.thread_errors:
+            res.inconclusive = f'{r.verdict} {r.thread_errors[:1]}'
+            return res
+        la = [e[1] for e in r.log if e[0] == 'last_submission']
+        want = [1, 2, 3] if many else [1]
+        late = [e for e in r.log if e[0] == 'fstart' and la and e[2] >= la[0] - EPS]
+        got = sorted(x for e in late for x in e[1])
+        if got != want or r.verdict is not None or len(late) != 1 or abs(late[0][2] - (la[0] + T)) > T / 64:
+            res.violate(f'{self.pid}:dropped-wrapper' if self.pid == 'C03' else 'C08:burst-split-or-mistimed',
+                        'what was submitted to a wrapper whose last reference the caller then dropped was not delivered (once, '
+                        '`timeout` after the submission)', case=case, calls=late, submitted=want, verdict=r.verdict)
+        res.nontrivial = True
+        st['nontrivial'] += 1
+        res.sig = f'oneshot:{k}'
+        res.sample = {'oneshot': {'used_before': used, 'collector_run': collect, 'decorator_form': deco, 'map': many}, 'log': r.log[:8]}
+        return res
+
     def run_case(self, case):
+        if 'oneshot' in case:
+            return self.run_oneshot(case)
         if case.get('real'):
             from vf import engine_b
             return engine_b.batch_case('buffer', self.flavour, case['seed'], 10, 'real_executions_with_foreign_threads')
